@@ -236,6 +236,10 @@ type dworld struct {
 	bad     bool // a violation was recorded for this case
 	tight   bool // the input has no NULL-string markers: the byte budget can be checked exactly
 	nomodel bool // the operation has no counterpart in the Lean model: implementation-side oracle only
+	// bytes of allocation allowed per input byte (default 64). The nested-value family sets 1024: the
+	// expression parser builds an object with its own attribute table per `[a=` (3 input bytes) —
+	// a large constant factor, still linear; a quadratic renderer or parser exceeds it.
+	allocFactor int
 }
 
 type contextT = context.Context
@@ -366,7 +370,11 @@ func (w *dworld) runOp(opp *string, entry string, cap int, f func() (string, err
 		w.violate("C13:steps:"+entry, fmt.Sprintf("%s performed %d string-level operations on %d input bytes", entry, r.calls, w.inBytes), fmt.Sprintf("≤ %d", lim), fmt.Sprint(r.calls))
 	}
 	// allocation in proportion to the input
-	if lim := uint64(64*w.inBytes + (1 << 20)); r.alloc > lim {
+	af := 64
+	if w.allocFactor > 0 {
+		af = w.allocFactor
+	}
+	if lim := uint64(af*w.inBytes + (1 << 20)); r.alloc > lim {
 		w.violate("C13:alloc:"+entry, fmt.Sprintf("%s allocated %d bytes while decoding %d input bytes", entry, r.alloc, w.inBytes), fmt.Sprintf("≤ %d", lim), fmt.Sprint(r.alloc))
 	}
 	// cap honoured: a capped reader stops taking frames once the cap is exceeded
@@ -1578,6 +1586,77 @@ func decodeWireNoEnd(c *Ctx, cases *[]Case, childJobs *[]childJob) {
 	}
 }
 
+// decodeNested: ClassAd VALUES that make a recursive parser / renderer go deep or wide — nested
+// ads `[a=[a=[…]]]`, parenthesised and unary chains, long lists, long operator chains — as the
+// value of one attribute, alone and followed by a malformed expression (the error path renders the
+// partial ad). Small depths run in-process (compared with the model); large ones in the child
+// process, whose stack is limited (SetMaxStack 48 MiB): unbounded recursion is a dead process.
+func decodeNested(c *Ctx, cases *[]Case, childJobs *[]childJob) {
+	shape := func(kind string, d int) string {
+		switch kind {
+		case "nested-ad":
+			return strings.Repeat("[a=", d) + "1" + strings.Repeat("]", d)
+		case "parens":
+			return strings.Repeat("(", d) + "1" + strings.Repeat(")", d)
+		case "unary":
+			return strings.Repeat("-", d) + "1"
+		case "not":
+			return strings.Repeat("!", d) + "true"
+		case "list":
+			return "{" + strings.Repeat("1,", d) + "1}"
+		case "nested-list":
+			return strings.Repeat("{", d) + "1" + strings.Repeat("}", d)
+		case "chain":
+			return strings.Repeat("1+", d) + "1"
+		case "ternary":
+			return strings.Repeat("true?1:", d) + "0"
+		case "call":
+			return strings.Repeat("f(", d) + "1" + strings.Repeat(")", d)
+		case "unclosed":
+			return strings.Repeat("[a=", d)
+		}
+		return "1"
+	}
+	kinds := []string{"nested-ad", "parens", "unary", "not", "list", "nested-list", "chain", "ternary", "call", "unclosed"}
+	depths := []int{3, 40, 1000, c.Pick(30000, 150000)}
+	for _, kind := range kinds {
+		for _, d := range depths {
+			for _, tail := range []string{"", "bad"} {
+				for _, enc := range []bool{false, true} {
+					if enc && (d == 40 || tail == "bad" && d > 1000) {
+						continue
+					}
+					exprs := []dfield{fStr("A = " + shape(kind, d))}
+					if tail == "bad" {
+						exprs = append(exprs, fStr("novalue"))
+					}
+					fs := append([]dfield{fInt(int64(len(exprs)))}, exprs...)
+					fs = append(fs, fStr("Machine"), fStr(""))
+					b := serialize(fs, enc)
+					frames := chunkFrames(b, 64<<10)
+					for _, cp := range []int{0, 1 << 20} {
+						label := fmt.Sprintf("nested %s depth=%d tail=%q cap=%d enc=%s", kind, d, tail, cp, b01(enc))
+						if d > 1000 {
+							if cp != 0 && kind != "nested-ad" {
+								continue
+							}
+							*childJobs = append(*childJobs, childJob{Label: label, Kind: "adnest", Enc: enc, Frames: hexFrames(frames), InBytes: len(b), Api: fmt.Sprint(cp)})
+							c.Count("nested:child:" + kind)
+							continue
+						}
+						w := newDWorld(c, label, enc, enc, frames, 0)
+						w.allocFactor = 1024
+						w.opAd(cp)
+						w.opRest()
+						c.Count("nested:" + kind)
+						w.done(cases, true)
+					}
+				}
+			}
+		}
+	}
+}
+
 func wireFrame(flag byte, n uint32, body []byte) []byte {
 	return append(refcodec.Header(flag, n), body...)
 }
@@ -1724,7 +1803,22 @@ func guardLeaf(c *Ctx, entry string, in string, f func()) {
 		}
 	}()
 	t0 := time.Now()
+	var m0, m1 runtime.MemStats
+	measure := len(in) >= 1024 // (short inputs: the fixed costs of the parsers dominate; panics and time still checked)
+	if measure {
+		runtime.ReadMemStats(&m0)
+	}
 	f()
+	if measure {
+		runtime.ReadMemStats(&m1)
+		// allocation in proportion to the text: a generous linear budget (per-separator slices,
+		// copies, maps), which a quadratic blow-up or a buffer sized from a number in the text exceeds
+		if a, lim := m1.TotalAlloc-m0.TotalAlloc, uint64(256*len(in)+4<<20); a > lim {
+			c13Violate(c, Violation{Property: "C13", Key: "C13:alloc:" + entry, What: fmt.Sprintf("%s allocated %d bytes for a text of %d bytes", entry, a, len(in)),
+				Ops: []string{entry + " " + strconv.Quote(clip(in, 200))}, Expected: fmt.Sprintf("≤ 256·len + 4 MiB = %d", lim), Observed: fmt.Sprint(a)})
+		}
+		c.Count("leaf:alloc-measured")
+	}
 	if d := time.Since(t0); d > 5*time.Second {
 		c13Violate(c, Violation{Property: "C13", Key: "C13:time:" + entry, What: fmt.Sprintf("%s took %v on %d bytes", entry, d, len(in)),
 			Ops: []string{entry + " " + strconv.Quote(clip(in, 200))}, Expected: "time linear in the input", Observed: d.String()})
@@ -1767,6 +1861,12 @@ func leafInputs(c *Ctx) []string {
 			b.WriteString(syms[c.Rng.Intn(len(syms))])
 		}
 		base = append(base, b.String())
+	}
+	// numeric fields a parser might size something from (ports, counts, version parts, cursors)
+	for _, num := range []string{"4294967296", "2147483648", "99999999999999999999", "-1", "1e9"} {
+		pad := strings.Repeat("x", 1100)
+		base = append(base, "<1.2.3.4:"+num+"?sock="+pad+">", "<1.2.3.4:5?ccbid="+num+"#"+num+"&sock="+pad+">", "$CondorVersion: "+num+"."+num+"."+num+" "+pad+" $",
+			num+" <a:1> "+num+" "+num+" "+pad, pad+"#"+num+"#"+num+"#[Encryption=\"YES\";]"+pad)
 	}
 	// long inputs: separators only / one long token (quadratic behaviour shows here)
 	for _, sym := range []string{"#", "]", "[", ";", "=", "&", ".", " ", "%", "A", "\"", "?", "1.", "sock=&"} {
@@ -1955,6 +2055,7 @@ type childResult struct {
 	Stack uint64 `json:"stack"` // growth of the memory in use by goroutine stacks
 	// kind "wire": what the in-process oracles of wworld.op recorded inside the child
 	Viol []Violation `json:"viol,omitempty"`
+	Op   string      `json:"op,omitempty"` // kind "adnest": the operation as finally logged (parser verdict filled in)
 }
 
 func hexFrames(fs []dframe) []string {
@@ -2000,7 +2101,7 @@ func runDecodeChild(c *Ctx) error {
 		j := jobs[i]
 		fmt.Fprintf(out, "START %d\n", i)
 		out.Flush()
-		var rep string
+		var rep, childOp string
 		var m0, m1 runtime.MemStats
 		runtime.ReadMemStats(&m0)
 		func() {
@@ -2022,6 +2123,14 @@ func runDecodeChild(c *Ctx) error {
 				w := newDWorld(c, j.Label, j.Enc, false, unhexFrames(j.Frames), 1)
 				w.opSub(j.Kind)
 				rep = w.real[len(w.real)-1]
+			case "adnest":
+				w := newDWorld(c, j.Label, j.Enc, j.Enc, unhexFrames(j.Frames), 0)
+				w.allocFactor = 1024
+				runtime.ReadMemStats(&m0)
+				cp, _ := strconv.Atoi(j.Api)
+				w.opAd(cp)
+				rep = w.real[len(w.real)-1]
+				childOp = w.ops[len(w.ops)-1]
 			case "wire":
 				wire, _ := hex.DecodeString(j.Wire)
 				w := newWWorld(c, j.Label, wire, false)
@@ -2049,7 +2158,7 @@ func runDecodeChild(c *Ctx) error {
 		if m1.StackInuse > m0.StackInuse {
 			stk = m1.StackInuse - m0.StackInuse
 		}
-		cr := childResult{Reply: rep, Alloc: m1.TotalAlloc - m0.TotalAlloc, Stack: stk}
+		cr := childResult{Reply: rep, Alloc: m1.TotalAlloc - m0.TotalAlloc, Stack: stk, Op: childOp}
 		if j.Kind == "wire" {
 			cr.Viol = append(cr.Viol, c.Res.Violations...)
 			c.Res.Violations = nil
@@ -2146,6 +2255,14 @@ func runChildJobs(c *Ctx, jobs []childJob, cases *[]Case) error {
 		if k, ok := subKinds[j.Kind]; ok {
 			entry = k.entry
 		}
+		if j.Kind == "adnest" {
+			entry = "message.GetClassAd"
+			if j.Api != "0" {
+				entry = "message.GetClassAdWithMaxSize"
+			}
+			ops[1] = fmt.Sprintf("new %s %s", b01(j.Enc), b01(j.Enc))
+			ops[3] = fmt.Sprintf("ad %s -", j.Api)
+		}
 		c.Res.Evaluations++
 		switch {
 		case fatal[i] != "":
@@ -2159,6 +2276,9 @@ func runChildJobs(c *Ctx, jobs []childJob, cases *[]Case) error {
 				c13Violate(c, Violation{Property: "C13", Key: "C13:panic:" + entry, What: fmt.Sprintf("%s panicked on peer-controlled input (%s)", entry, j.Label), Ops: ops, Expected: "an error", Observed: r.Reply})
 			}
 			lim := uint64(64*j.InBytes + 4<<20)
+			if j.Kind == "adnest" {
+				lim = uint64(1024*j.InBytes + 4<<20)
+			}
 			if j.Kind == "stack" {
 				lim = uint64(64*5*j.K + 4<<20)
 			}
@@ -2169,7 +2289,21 @@ func runChildJobs(c *Ctx, jobs []childJob, cases *[]Case) error {
 				c13Violate(c, Violation{Property: "C13", Key: "C13:stack:" + entry, What: fmt.Sprintf("%s: goroutine stack grew by %d bytes while reading %d empty partial frames (%d wire bytes): one stack frame per partial frame", entry, r.Stack, j.K, j.InBytes),
 					Ops: ops, Expected: "constant stack (≤ 4 MiB growth)", Observed: fmt.Sprint(r.Stack)})
 			}
-			if j.Kind == "wire" {
+			if j.Kind == "adnest" {
+				// recursion: the goroutine stack may grow with the nesting of the value, in proportion to
+				// the bytes received — not beyond
+				if lim := uint64(64*j.InBytes + 4<<20); r.Stack > lim {
+					c13Violate(c, Violation{Property: "C13", Key: "C13:stack:" + entry, What: fmt.Sprintf("%s: goroutine stack grew by %d bytes while decoding %d input bytes (%s)", entry, r.Stack, j.InBytes, j.Label), Ops: ops, Expected: fmt.Sprintf("≤ 64·input + 4 MiB = %d", lim), Observed: fmt.Sprint(r.Stack)})
+				}
+				rep := r.Reply
+				if strings.HasPrefix(rep, "err panic") {
+					rep = "err panic" + rep[strings.LastIndex(rep, " f="):]
+				}
+				if r.Op != "" {
+					ops[3] = r.Op
+				}
+				*cases = append(*cases, Case{Label: j.Label, Ops: ops[1:], Real: []string{"ok", "ok", rep}})
+			} else if j.Kind == "wire" {
 				for _, v := range r.Viol {
 					v.Ops = append([]string{ops[0]}, v.Ops...)
 					c13Violate(c, v)
@@ -2266,6 +2400,8 @@ func runDecode(c *Ctx) error {
 	timed("handshake-ads")
 	decodeSubprotocols(c, &cases, &jobs)
 	timed("subprotocols")
+	decodeNested(c, &cases, &jobs)
+	timed("nested")
 	decodeLeaves(c, &cases)
 	timed("leaves")
 	// stack depth of the multi-frame reader
